@@ -20,13 +20,23 @@
 (***************************************************************************)
 EXTENDS Obs
 
+\* quiet counter: red + 1 ticks without input/output suffice outside the tap-repress rules; with W > 0 up to 3 more are counted
+QCap(p) == p.red + 1 + (IF p.W > 0 THEN 3 ELSE 0)
+
 MonInit(p) ==
   \* el = ticks elapsed since the undecided press arrived; rel = the key's release has arrived
   [p |-> p, st |-> "none", el |-> 0, sharp |-> FALSE, kq |-> 0,
    \* pend: other-key presses whose output has not appeared yet, in arrival order;
    \* lag = number of tap-hold presses still undecided when the key arrived
    rel |-> FALSE, oth |-> <<>>, pend |-> <<>>,
-   lastIdle |-> TRUE, quiet |-> p.red + 1, err |-> ""]
+   \* tap-repress window (docs: "tap timeout"): qt = this press is a re-press inside the window (tap action held at once);
+   \* wst = what is known about the previous press of k ("unk" | "pend" = sharp, fresh, undecided | "tap" = it was a tap and
+   \* no other key was pressed since | "no" = it was a hold / another key was pressed since: the window is closed);
+   \* ws = ticks since that press arrived; ns = inputs of output-less keys since kanata last reported idle
+   \* wk marks (until the next tick) a sharp press of k whose tap-repress rule is pinned: "re" = re-press inside the
+   \* window, "fr" = the window would still be open but another key / a hold closed it (witness probe of c05.py)
+   qt |-> FALSE, wst |-> "no", ws |-> 0, ns |-> 0, wk |-> "",
+   lastIdle |-> TRUE, quiet |-> QCap(p), err |-> ""]
 
 OutOf(p, c) == LET I == {i \in DOMAIN p.others : p.others[i].c = c} IN
                IF I = {} THEN 0 - 1 ELSE p.others[CHOOSE i \in I : TRUE].o
@@ -66,8 +76,25 @@ Trigger(m) ==
 \* "No key is ever output until the action key is released or another key is pressed"
 SkipTimeout(m) == m.p.variant = "except-keys" /\ PressIdx(m) = {}
 
+\* ---- tap-repress window ("tap timeout", docs: tap-hold, "Tap timeout in more detail") ----------------
+\* "the number of milliseconds within which a rapid press+release+press of a key will result in the tap action being
+\* held instead of the hold action activating": the previous press of k was a tap, NO other key was pressed in between
+\* (then it is not press+release+press of a key: the press is an ordinary tap-hold press again, whatever the other key's
+\* action is and whether or not the tap-hold is wrapped in multi), and the re-press comes within W of the first press.
+\* The documented example puts n = W inside the window, the code outside: that single tick is left open ("maybe").
+QtStatus(m) ==
+  IF m.p.W = 0 THEN "no"
+  ELSE CASE m.wst = "no" -> "no"
+         [] m.wst = "tap" -> IF m.ws < m.p.W THEN "yes" ELSE IF m.ws = m.p.W THEN "maybe" ELSE "no"
+         \* nothing pinned about the previous press: kanata reports idle only when no window is open
+         [] OTHER -> IF m.lastIdle THEN "no" ELSE "maybe"
+\* kanata does not report idle while the window is open: a non-idle report that the window accounts for does not make
+\* the press uncertain, provided the output-less inputs that arrived since the last idle report have had their ticks
+WinExcuse(m) == m.p.W > 0 /\ m.wst \in {"tap", "no"} /\ m.ws <= m.p.W + 1 /\ m.ns <= 2 /\ m.quiet > m.p.red + m.ns
+
 Dec(m, T) ==
-  IF T < 2 THEN "none"
+  IF m.qt THEN "tap"
+  ELSE IF T < 2 THEN "none"
   ELSE LET tr == Trigger(m) IN
        IF tr # "none" THEN tr
        ELSE IF m.rel THEN (IF T < HoldRel(m) THEN "tap" ELSE "timeout")
@@ -82,13 +109,21 @@ MonIn(m, r) ==
     LET m0 == [m EXCEPT !.quiet = 0] IN
     IF r.c = m.p.k
     THEN IF r.e = "d"
-         THEN IF m.st = "und" THEN [m0 EXCEPT !.kq = @ + 1, !.sharp = FALSE]
-              ELSE [m0 EXCEPT !.st = "und", !.el = 0, !.rel = FALSE, !.oth = <<>>,
-                              !.sharp = m.lastIdle /\ m.quiet > m.p.red /\ m.pend = <<>>]
+         THEN IF m.st = "und" THEN [m0 EXCEPT !.kq = @ + 1, !.sharp = FALSE, !.qt = FALSE, !.wst = "unk"]
+              ELSE LET q == QtStatus(m)
+                       sh == (m.lastIdle \/ WinExcuse(m)) /\ m.quiet > m.p.red /\ m.pend = <<>> /\ q # "maybe"
+                   IN [m0 EXCEPT !.st = "und", !.el = 0, !.rel = FALSE, !.oth = <<>>, !.sharp = sh,
+                                 !.qt = sh /\ q = "yes", !.ws = 0,
+                                 !.wk = IF sh /\ m.p.W > 0 /\ m.wst \in {"tap", "no"} /\ m.ws <= m.p.W + 1
+                                        THEN (IF q = "yes" THEN "re" ELSE "fr") ELSE "",
+                                 !.wst = IF m.p.W > 0 /\ sh /\ q = "no" THEN "pend" ELSE "unk"]
          ELSE IF m.st = "und" /\ m.kq = 0 /\ ~m.rel THEN [m0 EXCEPT !.rel = TRUE]
               ELSE m0
-    ELSE LET m1 == IF m.st = "und" /\ m.kq = 0
-                   THEN [m0 EXCEPT !.oth = Append(@, [p |-> r.e = "d", c |-> r.c])] ELSE m0
+    ELSE LET m00 == IF m.p.W = 0 THEN m0
+                    ELSE [m0 EXCEPT !.wst = IF r.e = "d" THEN "no" ELSE @,
+                                    !.ns = IF OutOf(m.p, r.c) < 0 THEN OMin(@ + 1, 3) ELSE @]
+             m1 == IF m.st = "und" /\ m.kq = 0
+                   THEN [m00 EXCEPT !.oth = Append(@, [p |-> r.e = "d", c |-> r.c])] ELSE m00
              lag == IF m.st = "und" THEN m.kq + 1 ELSE 0
          IN IF r.e = "d" /\ OutOf(m.p, r.c) >= 0
             THEN [m1 EXCEPT !.pend = Append(@, [o |-> OutOf(m.p, r.c), lag |-> lag])]
@@ -112,7 +147,8 @@ Scan(m, out, T) ==
                   dl(pd) == [i \in 1..Len(pd) |-> [pd[i] EXCEPT !.lag = IF @ > 0 THEN @ - 1 ELSE 0]]
                   m1 == IF m.kq > 0
                         THEN [m EXCEPT !.kq = @ - 1, !.rel = FALSE, !.sharp = FALSE, !.oth = <<>>, !.pend = dl(@)]
-                        ELSE [m EXCEPT !.st = "dec", !.oth = <<>>, !.rel = FALSE, !.pend = dl(@)]
+                        ELSE [m EXCEPT !.st = "dec", !.oth = <<>>, !.rel = FALSE, !.pend = dl(@), !.qt = FALSE,
+                                       !.wst = IF @ = "pend" THEN (IF e[2] = m.p.tapK THEN "tap" ELSE "no") ELSE @]
               IN IF ~okSharp
                  THEN Fail(m, "C05 X2/X3: outcome differs from the documented rule (or is early/late)")
                  ELSE Scan(m1, rest, T)
@@ -143,13 +179,16 @@ MonTick(m, out, idle, cb) ==
               THEN Fail(m1, "C05 X4: a key pressed while undecided was lost")
               ELSE m1
     IN [m2 EXCEPT !.el = IF m2.st = "und" THEN (IF gotOutcome THEN 0 ELSE OMin(T, ElCap(m))) ELSE 0,
-                  !.lastIdle = idle,
-                  !.quiet = IF out = <<>> THEN OMin(m2.quiet + 1, m.p.red + 1) ELSE 0]
+                  !.lastIdle = idle, !.wk = "",
+                  !.ws = IF m.p.W = 0 THEN 0 ELSE OMin(m2.ws + 1, m.p.W + 2),
+                  !.ns = IF idle THEN 0 ELSE m2.ns,
+                  !.quiet = IF out = <<>> THEN OMin(m2.quiet + 1, QCap(m.p)) ELSE 0]
 
 RECURSIVE MonSilent(_, _, _, _)
 MonSilent(m, n, idle, cb) ==
   IF n = 0 \/ m.err # "" THEN m
-  ELSE IF m.st # "und" /\ m.pend = <<>> /\ m.lastIdle = idle /\ m.quiet > m.p.red
+  ELSE IF m.st # "und" /\ m.pend = <<>> /\ m.lastIdle = idle /\ m.quiet >= QCap(m.p)
+          /\ (m.p.W = 0 \/ m.ws > m.p.W + 1) /\ (~idle \/ m.ns = 0)
   THEN m
   ELSE MonSilent(MonTick(m, <<>>, idle, cb), n - 1, idle, cb)
 =============================================================================
